@@ -86,7 +86,8 @@ func (p *Program) analyseGlobals() {
 			info.isErr = true
 		default:
 			// pointer to a fresh object allocated in init
-			if a, ok := v.(*ssa.Alloc); ok && a.Heap {
+			_, isMap := v.(*ssa.MakeMap)
+			if a, ok := v.(*ssa.Alloc); (ok && a.Heap) || isMap {
 				uniq++
 				info.uniq = uniq
 				info.isObj = true
